@@ -63,7 +63,7 @@ fn accept_once(f_cur: f64, f_cand: f64, t: f64, seed: u64) -> Result<u32, (Strin
 fn acceptance_grid(rep: &Reporter) {
     let objs = [-3.0, 0.0, 1.0, 1.0 + 1e-9, 2.0, 50.0, f64::INFINITY];
     let temps = [1e-12, 1e-3, 0.1, 1.0, 10.0, 1e6, 1e12];
-    let n = rep.tier.pick(2_000u64, 20_000u64);
+    let n = rep.tier.pick(5_000u64, 20_000u64);
     let band = ((2.0f64 / 1e-10).ln() / (2.0 * n as f64)).sqrt();
     rep.set("seeds_per_cell", json!(n));
     rep.set("hoeffding_band", json!(band));
